@@ -8,9 +8,9 @@
 package main
 
 import (
-	"os"
 	"fmt"
 	"net/netip"
+	"os"
 	"sort"
 	"time"
 
@@ -37,7 +37,10 @@ var classes = []string{"valid-A", "valid-B", "duplicate-A", "len-63", "len-65", 
 	// wildcard address, is dual-stack): received like any other
 	"valid-A-over-ipv6",
 	// an empty datagram (a successful zero-byte read): malformed like any other wrong length
-	"len-0"}
+	"len-0",
+	// a well-formed reply whose every field is zero (serial number 0, zero addresses, MAC, version and
+	// date): byte for byte the get-devices request itself - and still a reply like any other
+	"valid-all-zero"}
 
 // debugClient: the client of the scenario is built with debug = true (set by the scenario body)
 var debugClient = false
@@ -53,7 +56,7 @@ func reply(class string, k int) []byte {
 		vals["IpAddress"] = [4]byte{192, 168, 1, 101}
 		vals["Version"] = uint16(0x0662)
 	}
-	if class != "duplicate-A" && class != "valid-A" && class != "valid-B" && class != "valid-A-over-ipv6" {
+	if class != "duplicate-A" && class != "valid-A" && class != "valid-B" && class != "valid-A-over-ipv6" && class != "valid-all-zero" {
 		// make malformed datagrams distinguishable from the valid ones
 		vals["Gateway"] = [4]byte{10, 0, 0, byte(k + 1)}
 	}
@@ -66,6 +69,9 @@ func reply(class string, k int) []byte {
 		d = d[:6]
 	case "len-0":
 		d = d[:0]
+	case "valid-all-zero":
+		d = make([]byte, 64)
+		d[0], d[1] = 0x17, 0x94
 	case "function-ff":
 		d[1] = 0xff
 	case "len-65": // a well-formed reply followed by one more byte: too long, whatever its first 64 bytes say
@@ -170,9 +176,12 @@ func scenarioD(name string, n int, fixedTimes []time.Duration, bcastPort uint16,
 				continue
 			}
 			switch a.class {
-			case "valid-A", "valid-B", "duplicate-A", "calendar-invalid-date", "valid-A-over-ipv6":
+			case "valid-A", "valid-B", "duplicate-A", "calendar-invalid-date", "valid-A-over-ipv6", "valid-all-zero":
 				serial := sA
 				nameWant := ""
+				if a.class == "valid-all-zero" {
+					serial = 0
+				}
 				if a.class == "valid-B" {
 					serial, nameWant = sB, "Bravo"
 				}
@@ -481,7 +490,7 @@ func main() {
 	if r.Worker == "" && r.Replay == "" {
 		vs.Run(nil, nil, vs.Options{}, func() { mappingSweep(r) })
 	}
-	r.Rule("every sequence of 0..2 datagrams over 14 classes (valid A/B, duplicate, a valid reply arriving over IPv6, an empty datagram, 6 and 63 bytes, 65 and 1100 bytes with a well-formed 64-byte prefix, wrong protocol id, wrong function code, function code 0xff, non-BCD and calendar-invalid date), every 2-datagram sequence also through a client built with debug = true, x 5 arrival times (0.1T, 0.5T, T-e, T, T+e), every 3-datagram class sequence at two fixed time patterns (thorough: also every 3-datagram sequence at every arrival-time combination, simultaneous arrivals and 4 datagrams at two time patterns), broadcast address unset / port 60005, each under all interleavings of the reader goroutine and the sleeping caller within the preemption bound; two overlapping GetDevices calls on one client, the second receiving 3 / 40 replies in the instant the first one's window ends (<= 1 preemption), and 1100 replies on the default schedule; plus a driver-level sweep of one reply through the result mapping (every byte value of address/mask/gateway/MAC/version/serial, all 65536 version, year and month-day byte pairs) x {unnamed + default port, named + port 60005, broadcast address with a port but no IP (= none configured)}. distinct = distinct (entries, datagrams) labels")
+	r.Rule("every sequence of 0..2 datagrams over 15 classes (valid A/B, duplicate, the all-zero reply (byte for byte the request itself), a valid reply arriving over IPv6, an empty datagram, 6 and 63 bytes, 65 and 1100 bytes with a well-formed 64-byte prefix, wrong protocol id, wrong function code, function code 0xff, non-BCD and calendar-invalid date), every 2-datagram sequence also through a client built with debug = true, x 5 arrival times (0.1T, 0.5T, T-e, T, T+e), every 3-datagram class sequence at two fixed time patterns (thorough: also every 3-datagram sequence at every arrival-time combination, simultaneous arrivals and 4 datagrams at two time patterns), broadcast address unset / port 60005, each under all interleavings of the reader goroutine and the sleeping caller within the preemption bound; two overlapping GetDevices calls on one client, the second receiving 3 / 40 replies in the instant the first one's window ends (<= 1 preemption), and 1100 replies on the default schedule; plus a driver-level sweep of one reply through the result mapping (every byte value of address/mask/gateway/MAC/version/serial, all 65536 version, year and month-day byte pairs) x {unnamed + default port, named + port 60005, broadcast address with a port but no IP (= none configured)}. distinct = distinct (entries, datagrams) labels")
 	r.Assume("a reply with a calendar-invalid BCD date may be dropped or reported with the zero date (the property lists only non-BCD dates as malformed)")
 	r.Finish()
 }
